@@ -15,10 +15,16 @@ An assignment `ρ` of the physical axes *satisfies* a substitution when every bi
   satisfies the old substitution extends to the new one by choosing only the fresh axes; so the unified
   pattern is exactly the intersection (`unify_intersection`).  Only "all identities are below the counter"
   is needed; size consistency of the bindings is NOT needed for this direction.
-* typed completeness FAILS for the typing discipline (`Ty`, `HasTy`): a factor of `numel` 1 that is not the
-  unit axis — a physical axis of size 1 (`unify_complete_counterexample`) or the inhabitant `0 + () + 0` of a
-  one-component sum type (`unify_complete_counterexample_no_size1`) — makes `unify` answer `False` on
-  overlapping patterns.
+* typed completeness: before the repair of `Axis.unify` a factor of `numel` 1 that is not the unit axis — a physical
+  axis of size 1, or the inhabitant `0 + () + 0` of a one-component sum type — made `unify` answer `False` on
+  overlapping patterns.  The repaired code (followed by the model) unifies such a factor with the unit axis and skips
+  it, and walks a sum against a proper product as a product of one factor: the two former witnesses now unify
+  (`unify_size1_factor_example`, `unify_onehot_factor_example`), and soundness / most-generality are unaffected.
+  Completeness for the typing discipline (`Ty`, `HasTy`) still FAILS, for another reason: `HasTy` lets one physical
+  axis cover two different types of the same `numel` (the diagonal of `(2 × 3) × (3 × 2)` by one axis of size 6); the
+  two splits of that axis have incompatible radices and `unify` answers `False` on overlapping patterns
+  (`unify_complete_counterexample`, `unify_complete_counterexample_no_size1` — statements unchanged, new witness —
+  and `unify_complete_counterexample_diagonal`).
 
 All proofs go through the fuel-free big-step relation `Run` of FggsProofs/C06bLemmas.lean.
 -/
@@ -318,38 +324,44 @@ end
 the hypothesis `e.numel = f.numel` of `unify_sized`/`unify_clone_eq` -/
 theorem hasTy_numel {a : Axis} {t : Ty} (h : HasTy a t) : a.numel = t.numel := hasTy_numel_aux h
 
-/-- **typed completeness fails**: in the type `1 × (1 + 1)` the first component may be a physical axis of
-size 1 on one side and the unit axis on the other; `productAxis` drops the unit and unwraps the singleton,
-so a `ProductAxis` meets a `SumAxis`, and `unify` answers `False` although both patterns contain the
-virtual index 0.  (The free variables are disjoint, the substitution is empty.) -/
-theorem unify_complete_counterexample :
-    ∃ (ty : Ty) (e f : Axis), HasTy e ty ∧ HasTy f ty ∧ (∀ q ∈ e.fv, ∀ q' ∈ f.fv, q.1 ≠ q'.1) ∧
-      (unify FUEL e f ⟨[], 1⟩).1 = false ∧
-      ∃ ρ₁ ρ₂ : Nat → Nat, InRange ρ₁ e ∧ InRange ρ₂ f ∧ e.eval ρ₁ = f.eval ρ₂ := by
-  refine ⟨.prod [.atom 1, .sum [.atom 1, .atom 1]],
-    .prod [.phys 0 1, .sum 0 unitAxis 1], .sum 0 unitAxis 1, ?_, ?_, ?_, rfl,
-    fun _ => 0, fun _ => 0, ?_, ?_, by decide⟩
+/-! #### the two instances that were counterexamples before the repair of `Axis.unify`
+
+Before the repair a factor of `numel` 1 that is not the unit axis — a physical axis of size 1, or the inhabitant
+`0 + () + 0` of a one-component sum type — made `unify` answer `False` on overlapping patterns (the walk over the
+factors did not skip it, and a `ProductAxis` against a `SumAxis` was a failure).  These two instances were the
+witnesses of `unify_complete_counterexample` and `unify_complete_counterexample_no_size1`; with the repaired code
+(a one-element factor is unified with the unit axis and skipped; a sum against a proper product is walked as a
+product of one factor) both unify. -/
+
+/-- (was the witness of `unify_complete_counterexample` before the repair) in the type `1 × (1 + 1)` the first
+component is a physical axis of size 1 on one side and the unit axis on the other; `productAxis` drops the unit and
+unwraps the singleton, so a `ProductAxis` meets a `SumAxis`: now the sum is walked as a product of one factor and
+the left-over physical axis of size 1 is bound to the unit axis -/
+theorem unify_size1_factor_example :
+    HasTy (.prod [.phys 0 1, .sum 0 unitAxis 1]) (.prod [.atom 1, .sum [.atom 1, .atom 1]]) ∧
+    HasTy (.sum 0 unitAxis 1) (.prod [.atom 1, .sum [.atom 1, .atom 1]]) ∧
+    unify FUEL (.prod [.phys 0 1, .sum 0 unitAxis 1]) (.sum 0 unitAxis 1) ⟨[], 1⟩ = (true, ⟨[(0, unitAxis)], 1⟩) := by
+  refine ⟨?_, ?_, rfl⟩
   · exact HasTy.prod (es := [.phys 0 1, .sum 0 unitAxis 1])
       (.cons (.atom 0 1) (.cons (HasTy.sum [] (.atom 1) [.atom 1] .unit) .nil))
   · exact HasTy.prod (es := [unitAxis, .sum 0 unitAxis 1])
       (.cons .unit (.cons (HasTy.sum [] (.atom 1) [.atom 1] .unit) .nil))
-  · simp [Axis.fv, fvList, unitAxis]
-  · simp [InRange, Axis.fv, fvList, unitAxis]
-  · simp [InRange, Axis.fv, fvList, unitAxis]
 
-/-- … and it also fails WITHOUT physical axes of size 1: in `(1 + 1) × ((1) × 2)`, where `(1)` is a sum type
-with one component of size 1, one side covers `(1) × 2` densely by one physical axis of size 2, the other
-side keeps the factor `0 + () + 0` of size 1.  After the two axes of size 2 have been unified, the walk over
-the factors pairs `0 + () + 1` (size 2) with `0 + () + 0` (size 1), splits, and a `SumAxis` meets a
-`ProductAxis`: `False`, although the patterns share the virtual indices 0 and 1.  A factor of `numel` 1 that
-is not the unit axis is not skipped by the walk. -/
-theorem unify_complete_counterexample_no_size1 :
-    ∃ (ty : Ty) (e f : Axis), HasTy e ty ∧ HasTy f ty ∧ (∀ q ∈ e.fv, ∀ q' ∈ f.fv, q.1 ≠ q'.1) ∧
-      (∀ q ∈ e.fv ++ f.fv, q.2 ≠ 1 ∧ q.2 ≠ 0) ∧ (unify FUEL e f ⟨[], 2⟩).1 = false ∧
-      ∃ ρ₁ ρ₂ : Nat → Nat, InRange ρ₁ e ∧ InRange ρ₂ f ∧ e.eval ρ₁ = f.eval ρ₂ := by
-  refine ⟨.prod [.sum [.atom 1, .atom 1], .prod [.sum [.atom 1], .atom 2]],
-    .prod [.sum 0 unitAxis 1, .phys 0 2], .prod [.sum 0 unitAxis 1, .sum 0 unitAxis 0, .phys 1 2], ?_, ?_, ?_, ?_, rfl,
-    fun _ => 0, fun _ => 0, ?_, ?_, by decide⟩
+/-- (was the witness of `unify_complete_counterexample_no_size1` before the repair: `unify` answered `False`)
+in `(1 + 1) × ((1) × 2)`, where `(1)` is a sum type with one component of size 1, one side covers `(1) × 2`
+densely by one physical axis of size 2, the other side keeps the factor `0 + () + 0` of size 1.  After the two axes
+of size 2 have been unified, the walk over the factors pairs `0 + () + 1` (size 2) with `0 + () + 0` (size 1): the
+one-element factor is now unified with the unit axis and skipped, and the instance unifies (the two axes of size 2
+are identified) -/
+theorem unify_onehot_factor_example :
+    HasTy (.prod [.sum 0 unitAxis 1, .phys 0 2]) (.prod [.sum [.atom 1, .atom 1], .prod [.sum [.atom 1], .atom 2]]) ∧
+    HasTy (.prod [.sum 0 unitAxis 1, .sum 0 unitAxis 0, .phys 1 2])
+      (.prod [.sum [.atom 1, .atom 1], .prod [.sum [.atom 1], .atom 2]]) ∧
+    (unify FUEL (.prod [.sum 0 unitAxis 1, .phys 0 2]) (.prod [.sum 0 unitAxis 1, .sum 0 unitAxis 0, .phys 1 2])
+      ⟨[], 2⟩).1 = true ∧
+    unify FUEL (.prod [.sum 0 unitAxis 1, .phys 0 2]) (.prod [.sum 0 unitAxis 1, .sum 0 unitAxis 0, .phys 1 2])
+      ⟨[], 2⟩ = (true, ⟨[(0, .phys 1 2)], 2⟩) := by
+  refine ⟨?_, ?_, rfl, rfl⟩
   · exact HasTy.prod (es := [.sum 0 unitAxis 1, .phys 0 2])
       (.cons (HasTy.sum [] (.atom 1) [.atom 1] .unit)
         (.cons (HasTy.dense 0 (.prod [.sum [.atom 1], .atom 2])) .nil))
@@ -357,9 +369,99 @@ theorem unify_complete_counterexample_no_size1 :
       (.cons (HasTy.sum [] (.atom 1) [.atom 1] .unit)
         (.cons (HasTy.prod (es := [.sum 0 unitAxis 0, .phys 1 2])
           (.cons (HasTy.sum [] (.atom 1) [] .unit) (.cons (.atom 1 2) .nil))) .nil))
-  · simp [Axis.fv, fvList, unitAxis]
-  · simp [Axis.fv, fvList, unitAxis]
-  · simp [InRange, Axis.fv, fvList, unitAxis]
-  · simp [InRange, Axis.fv, fvList, unitAxis]
+
+/-! #### typed completeness still fails for the discipline `HasTy`: a physical axis used at two types
+
+`HasTy` lets ONE physical axis cover two different types of the same `numel` densely (a diagonal pattern): the
+axis `k` of size 6 at the type `2 × 3` and at the type `3 × 2`.  Against a pattern that spells out the four factors,
+`k` is first split as `k' × (2)` (binding `k ↦ k' × f₄`, `k'` of size 3), then, at its second occurrence, its
+binding `k' × f₄` (radices 3, 2) is unified with `k'' × f₂` (radices 2, 3): the walk pairs a factor of size 2 with a
+factor of size 3, and `3 % 2 ≠ 0`: `False` (Python warns "index type mismatch"), although the diagonal
+`{0, 7, 14, 21, 28, 35}` meets the other pattern.  No factor of `numel` 1 is involved, so the statements of both
+counterexample theorems remain true (with this witness). -/
+
+/-- the type `(2 × 3) × (3 × 2)`, with `2 = 1 + 1` and `3 = 1 + 1 + 1` -/
+private def diagTy : Ty :=
+  .prod [.prod [.sum [.atom 1, .atom 1], .sum [.atom 1, .atom 1, .atom 1]],
+         .prod [.sum [.atom 1, .atom 1, .atom 1], .sum [.atom 1, .atom 1]]]
+
+/-- the diagonal: one physical axis of size 6 covers both components -/
+private def diagE : Axis := .prod [.phys 0 6, .phys 0 6]
+
+/-- the cell `(0, 0, 0, 0)`, all four factors spelt out -/
+private def diagF : Axis :=
+  .prod [.sum 0 unitAxis 1, .sum 0 unitAxis 2, .sum 0 unitAxis 2, .sum 0 unitAxis 1]
+
+private theorem diagE_ty : HasTy diagE diagTy :=
+  HasTy.prod (es := [.phys 0 6, .phys 0 6])
+    (.cons (HasTy.dense 0 (.prod [.sum [.atom 1, .atom 1], .sum [.atom 1, .atom 1, .atom 1]]))
+      (.cons (HasTy.dense 0 (.prod [.sum [.atom 1, .atom 1, .atom 1], .sum [.atom 1, .atom 1]])) .nil))
+
+private theorem diagF_ty : HasTy diagF diagTy :=
+  HasTy.prod (es := [.prod [.sum 0 unitAxis 1, .sum 0 unitAxis 2], .prod [.sum 0 unitAxis 2, .sum 0 unitAxis 1]])
+    (.cons (HasTy.prod (es := [.sum 0 unitAxis 1, .sum 0 unitAxis 2])
+        (.cons (HasTy.sum [] (.atom 1) [.atom 1] .unit)
+          (.cons (HasTy.sum [] (.atom 1) [.atom 1, .atom 1] .unit) .nil)))
+      (.cons (HasTy.prod (es := [.sum 0 unitAxis 2, .sum 0 unitAxis 1])
+        (.cons (HasTy.sum [] (.atom 1) [.atom 1, .atom 1] .unit)
+          (.cons (HasTy.sum [] (.atom 1) [.atom 1] .unit) .nil))) .nil))
+
+/-- **typed completeness fails** (statement unchanged; the witness of before the repair — a physical axis of size
+1 in the type `1 × (1 + 1)` — now unifies, `unify_size1_factor_example`): one physical axis of size 6 covers the
+components `2 × 3` and `3 × 2` of the type `(2 × 3) × (3 × 2)`; against the cell `(0, 0, 0, 0)` with all four
+factors spelt out, `unify` answers `False` although both patterns contain the virtual index 0.  (The free variables
+are disjoint, the substitution is empty.) -/
+theorem unify_complete_counterexample :
+    ∃ (ty : Ty) (e f : Axis), HasTy e ty ∧ HasTy f ty ∧ (∀ q ∈ e.fv, ∀ q' ∈ f.fv, q.1 ≠ q'.1) ∧
+      (unify FUEL e f ⟨[], 1⟩).1 = false ∧
+      ∃ ρ₁ ρ₂ : Nat → Nat, InRange ρ₁ e ∧ InRange ρ₂ f ∧ e.eval ρ₁ = f.eval ρ₂ := by
+  refine ⟨diagTy, diagE, diagF, diagE_ty, diagF_ty, ?_, rfl, fun _ => 0, fun _ => 0, ?_, ?_, by decide⟩
+  · simp [diagF, Axis.fv, fvList, unitAxis]
+  · simp [diagE, InRange, Axis.fv, fvList, unitAxis]
+  · simp [diagF, InRange, Axis.fv, fvList, unitAxis]
+
+/-- … and it also fails WITHOUT physical axes of size 1 (statement unchanged; the witness of before the repair — the
+factor `0 + () + 0` spelt out on one side only — now unifies, `unify_onehot_factor_example`): the same diagonal
+pattern; the only physical axis has size 6. -/
+theorem unify_complete_counterexample_no_size1 :
+    ∃ (ty : Ty) (e f : Axis), HasTy e ty ∧ HasTy f ty ∧ (∀ q ∈ e.fv, ∀ q' ∈ f.fv, q.1 ≠ q'.1) ∧
+      (∀ q ∈ e.fv ++ f.fv, q.2 ≠ 1 ∧ q.2 ≠ 0) ∧ (unify FUEL e f ⟨[], 2⟩).1 = false ∧
+      ∃ ρ₁ ρ₂ : Nat → Nat, InRange ρ₁ e ∧ InRange ρ₂ f ∧ e.eval ρ₁ = f.eval ρ₂ := by
+  refine ⟨diagTy, diagE, diagF, diagE_ty, diagF_ty, ?_, ?_, rfl, fun _ => 0, fun _ => 0, ?_, ?_, by decide⟩
+  · simp [diagF, Axis.fv, fvList, unitAxis]
+  · simp [diagE, diagF, Axis.fv, fvList, unitAxis]
+  · simp [diagE, InRange, Axis.fv, fvList, unitAxis]
+  · simp [diagF, InRange, Axis.fv, fvList, unitAxis]
+
+/-- the same with a dense, linear right-hand side (four distinct physical axes of sizes 2, 3, 3, 2; all identities
+below the counter; every one of the six points of the diagonal lies in the overlap): the type is
+`(2 × 3) × (3 × 2)` over atoms -/
+theorem unify_complete_counterexample_diagonal :
+    ∃ (ty : Ty) (e f : Axis), HasTy e ty ∧ HasTy f ty ∧ (∀ q ∈ e.fv, ∀ q' ∈ f.fv, q.1 ≠ q'.1) ∧
+      (∀ q ∈ e.fv ++ f.fv, q.2 ≠ 1 ∧ q.2 ≠ 0) ∧ WfSt ⟨[], 5⟩ e f ∧ (f.fv.map (·.1)).Nodup ∧
+      (unify FUEL e f ⟨[], 5⟩).1 = false ∧
+      ∀ ρ₁ : Nat → Nat, InRange ρ₁ e → ∃ ρ₂ : Nat → Nat, InRange ρ₂ f ∧ e.eval ρ₁ = f.eval ρ₂ := by
+  refine ⟨.prod [.prod [.atom 2, .atom 3], .prod [.atom 3, .atom 2]], .prod [.phys 0 6, .phys 0 6],
+    .prod [.phys 1 2, .phys 2 3, .phys 3 3, .phys 4 2], ?_, ?_, ?_, ?_, ?_, ?_, by decide, ?_⟩
+  · exact HasTy.prod (es := [.phys 0 6, .phys 0 6])
+      (.cons (HasTy.dense 0 (.prod [.atom 2, .atom 3])) (.cons (HasTy.dense 0 (.prod [.atom 3, .atom 2])) .nil))
+  · exact HasTy.prod (es := [.prod [.phys 1 2, .phys 2 3], .prod [.phys 3 3, .phys 4 2]])
+      (.cons (HasTy.prod (es := [.phys 1 2, .phys 2 3]) (.cons (.atom 1 2) (.cons (.atom 2 3) .nil)))
+        (.cons (HasTy.prod (es := [.phys 3 3, .phys 4 2]) (.cons (.atom 3 3) (.cons (.atom 4 2) .nil))) .nil))
+  · simp [Axis.fv, fvList]
+  · simp [Axis.fv, fvList]
+  · simp [WfSt, WfSubst, Below, Axis.fv, fvList]
+  · simp [Axis.fv, fvList]
+  · intro ρ₁ hr
+    have h0 : ρ₁ 0 < 6 := hr (0, 6) (by simp [Axis.fv, fvList])
+    -- the digits of `ρ₁ 0` in the radices (2, 3) and (3, 2)
+    refine ⟨fun v => if v = 1 then ρ₁ 0 / 3 else if v = 2 then ρ₁ 0 % 3 else if v = 3 then ρ₁ 0 / 2 else ρ₁ 0 % 2,
+      ?_, ?_⟩
+    · intro q hq
+      simp only [Axis.fv, fvList, List.cons_append, List.nil_append, List.mem_cons, List.not_mem_nil, or_false] at hq
+      rcases hq with rfl | rfl | rfl | rfl <;> simp <;> omega
+    · simp only [Axis.eval, evalList, Axis.numel]
+      simp
+      omega
 
 end C06b
